@@ -139,6 +139,7 @@ def main():
         if e.get("witness") is not None:
             c = dict(e["witness"])
             c["_origin"] = f"finding:{e['status']}:{i}"
+            c["_finding_id"] = e["id"]
             corpus_cases.append(c)
     try:
         cases = corpus_cases + list(mod.cases(seed, args.tier))
@@ -195,7 +196,12 @@ def main():
     fresh = []
     for v in violations + corr_breaks:
         key = v.get("key")
-        hit = next((e for e in known if mod.finding_matches(e, v)), None) if hasattr(mod, "finding_matches") else next((e for e in known if e.get("key") == key), None)
+        fid = (v.get("case") or {}).get("_finding_id")
+        if fid is not None:
+            # a violation on a finding's own witness belongs to that finding (if it is still `known`)
+            hit = next((e for e in known if e["id"] == fid and e.get("key") == key), None)
+        else:
+            hit = next((e for e in known if e.get("key") == key), None)
         if hit is not None:
             reported_known.add(hit["id"])
         else:
